@@ -36,7 +36,7 @@ RULE = (
     "event-log digest; non-trivial = >=2 generations changed the hall of fame and >=1 two-qubit move or selection step was drawn."
 )
 PROBES = ["hof_unfilled_slots", "hof_tie_replaced_by_smaller", "selection_drawn", "two_qubit_move_drawn",
-          "probabilistic_setting", "hybrid_solver", "n_hof_gt_n_pop", "dm_compiler"]
+          "probabilistic_setting", "hybrid_solver", "n_hof_gt_n_pop", "dm_compiler", "starting_circuit_given"]
 REAL = ["graphiq.solvers.evolutionary_solver.EvolutionarySolver.solve", "graphiq.solvers.hybrid_solvers.HybridEvolutionarySolver",
         "graphiq.solvers.solver_base (seed, update_hof, tournament_selection)", "graphiq.metrics.Infidelity", "both compilers",
         "numpy.random / random global generators (observed, not replaced)"]
@@ -76,6 +76,8 @@ def gen_case(run_seed, tier):
         "seed": sz.choice([0, 0, 1, 2**32 - 1] + [sz.randrange(1000) for _ in range(16)]),
         "hashseed": sz.choice(OTHER_HASHSEEDS[1:]),
         "pollution": [sz.randrange(10**6) for _ in range(4)],
+        # the plain evolutionary solver may be handed a starting circuit (its population then starts from copies of it)
+        "given_circuit": kind == "evo" and sz.random() < 0.3,
     }
     return case
 
@@ -102,6 +104,10 @@ def simplify(case):
     if case["kind"] != "evo":
         c = dict(case)
         c["kind"] = "evo"
+        yield c
+    if case.get("given_circuit"):
+        c = dict(case)
+        c["given_circuit"] = False
         yield c
 
 
@@ -163,7 +169,14 @@ def execute(case, pollution):
     try:
         with seam:
             if case["kind"] == "evo":
-                s = S(target=target, metric=metric, compiler=comp, n_emitter=case["ne"], n_photon=case["n"], solver_setting=setting)
+                start = None
+                if case.get("given_circuit"):
+                    helper = EvolutionarySolver(target=target, metric=metric, compiler=comp, n_emitter=case["ne"], n_photon=case["n"])
+                    rr = random.Random(case["seed"] + 101)
+                    ea = [0] + [rr.randrange(case["ne"]) for _ in range(case["n"] - 1)]
+                    ma = [rr.randrange(case["n"]) for _ in range(case["ne"])]
+                    start = helper.initialization(ea, ma)
+                s = S(target=target, metric=metric, compiler=comp, circuit=start, n_emitter=case["ne"], n_photon=case["n"], solver_setting=setting)
             else:
                 s = S(target=target, metric=metric, compiler=comp, solver_setting=setting)
             s.seed(case["seed"])
@@ -315,6 +328,8 @@ def run_case(case):
         ctx.probe("n_hof_gt_n_pop")
     if case["backend"] == "dm":
         ctx.probe("dm_compiler")
+    if case.get("given_circuit"):
+        ctx.probe("starting_circuit_given")
     pol = case["pollution"]
     e1 = execute(case, pol[0])
     ctx.fault("rng_pollution")
